@@ -712,7 +712,7 @@ func (pc *progressCtx) checkNextToken(nt *ssa.Function) {
 	for _, b := range nt.Blocks {
 		for _, in := range b.Instrs {
 			if c, ok := in.(*ssa.Call); ok {
-				if sc := c.Call.StaticCallee(); sc != nil && sc.Name() == "NextToken" && inPkg(sc, "lexer") {
+				if sc := c.Call.StaticCallee(); sc != nil && canonFnName(sc) == "NextToken" && inPkg(sc, "lexer") {
 					n++
 				}
 			}
@@ -956,7 +956,7 @@ func (pc *progressCtx) parEval(S int64) condEval {
 			if sc == nil {
 				return false, false
 			}
-			switch sc.Name() {
+			switch canonFnName(sc) {
 			case "curTokenIs", "expectPeek":
 				if k, ok := x.Call.Args[1].(*ssa.Const); ok {
 					return true, k.Int64() == S
